@@ -1002,13 +1002,9 @@ mm = matmul
 def clamp(t, min=None, max=None):  # noqa: A002
     def f(v):
         if min is not None:
-            lo = _norm_scalar(min)
-            v = symex.ite(v < lo, lo, v) if isinstance(v, SymNum) or isinstance(lo, SymNum) \
-                else (lo if v < lo else v)
+            v = symex.sym_max(v, _norm_scalar(min))
         if max is not None:
-            hi = _norm_scalar(max)
-            v = symex.ite(v > hi, hi, v) if isinstance(v, SymNum) or isinstance(hi, SymNum) \
-                else (hi if v > hi else v)
+            v = symex.sym_min(v, _norm_scalar(max))
         return v
     r = np.frompyfunc(f, 1, 1)(t.a)
     if not isinstance(r, np.ndarray):
